@@ -14,9 +14,15 @@ func VerifNewLRU(capacity int) *VerifLRU {
 	return &VerifLRU{c: NewLRU(capacity)}
 }
 
-// Set stores a fresh page object with content tag v and the given dirty flag.
+// Set stores a page with content tag v and the given dirty flag. When the resident page of that key has this very content
+// the resident OBJECT is stored again (what fileStore.update does with every page a flush wrote); otherwise a fresh object.
+// Pages of both kinds occur (even keys are internal pages): which kind a page is must not matter to the cache.
 func (v *VerifLRU) Set(key uint64, tag uint64, dirty bool) bool {
-	n := &btreeNode{fileOffset: key, lastLSN: tag, isLeaf: true, dirty: dirty}
+	if n := v.node(key); n != nil && n.lastLSN == tag {
+		n.dirty = dirty
+		return v.c.set(key, n)
+	}
+	n := &btreeNode{fileOffset: key, lastLSN: tag, isLeaf: key%2 == 1, dirty: dirty}
 	return v.c.set(key, n)
 }
 
